@@ -128,6 +128,18 @@ def check(run, views, tier):
                            "arm evaluates to %s" % tshow(r)[:200], site(ab), key="R-FORWARD|poll_read|%s" % a)
                 run.ob("R-FORWARD", "AsyncRead::poll_read has one arm per payload kind", set(arms) == {"Sync", "Empty", "Async"} and all(v == 1 for v in arms.values()),
                        arms, site(ab), key="R-FORWARD|poll_read|arms")
+        # a provided method that is overridden (read_vectored, read_to_end, poll_read_vectored ...) is a second, unanalysed way to the bytes
+        for trait, want in (("std::io::Read", ["read"]), ("futures_util::AsyncRead", ["poll_read"])):
+            if trait.startswith("futures") and not has_async:
+                continue
+            items = F.impl_items("ipp::payload::IppPayload", trait)
+            run.ob("R-FORWARD", "impl %s for IppPayload defines exactly %s" % (trait.split("::")[-1], want), items == want,
+                   "impl defines %s: every overridden provided method is another path to the payload bytes that the forwarding rules do not cover" % items,
+                   site(rb) if rb else None, key="R-FORWARD|impl-items|%s" % trait)
+        # operations attach the caller's payload as it is (C10's payload clause)
+        from ..engine import include
+        from . import c10
+        include(run, c10, {cfg: crates}, tier, "|payload")
         # constructors
         ctors = [("ipp::payload::IppPayload::new", "Sync", True), ("ipp::payload::IppPayload::empty", "Empty", False),
                  ("<ipp::payload::IppPayload as std::default::Default>::default", "Empty", False)]
